@@ -105,9 +105,9 @@ def main():
     prop = sys.argv[1].upper()
     args = [a for a in sys.argv[2:] if not a.startswith("--")]
     run_tests = "--tests" in sys.argv
-    bank = [m for m in load_bank(prop) if not args or any(o in m["name"] for o in args)]
+    bank = [m for m in load_bank(prop) + (seeded_as_mutants(prop) if args or "--seeds" in sys.argv else []) if not args or any(o in m["name"] for o in args)]
     with ThreadPoolExecutor(max_workers=int(os.environ.get("PV_JOBS", "5"))) as ex:
-        out = list(ex.map(lambda m: run_one(prop, m, run_tests=run_tests), bank))
+        out = list(ex.map(lambda m: run_one(prop, m, repo=os.environ.get("PV_MUT_REPO", "/repo"), run_tests=run_tests), bank))
     for r in out:
         print(json.dumps(r))
     caught = sum(1 for r in out if r["status"] == "caught")
